@@ -1047,6 +1047,9 @@ class Interp:
         if isinstance(a, NativeObj):
             r = a._binop(self, op, b, False)
             if r is not NotImplemented:
+                if inplace and hasattr(a, "_assign_inplace"):
+                    self.mutating(a)
+                    return a._assign_inplace(self, r)
                 return r
         if isinstance(b, NativeObj):
             r = b._binop(self, op, a, True)
